@@ -199,7 +199,7 @@ def check_next_level(prod, targets, N, CircularRecord, Seq, label, viol):
     extra = [x for x in sites_of(N) if gen.count_overlapping(insert + insert[:0], x)]
     n = len(s)
     ok_all = True
-    for r in sorted({0, 1, n // 3, n // 2, n - 1}):
+    for r in range(n):   # every rotation: in particular the ones that put the origin inside a next-level site
         t = s[r:] + s[:r]
         ent = N(CircularRecord(Seq(t), id="p"))
         obs = be.observe_entity(ent)
@@ -317,7 +317,7 @@ def bounded(ctx):
     return dict(evaluations=evals, distinct_nontrivial=len(distinct),
                 rule="every (vector, module, next-level) triple of the kits x chains of 1-3 inserts x target lengths 2..10, vectors and "
                      "modules instantiated from the real structure literals (seeded fillings free of further sites of both enzymes, "
-                     "random rotations): the product must be accepted by the next-level class at 5 rotations and its target must "
+                     "random rotations): the product must be accepted by the next-level class at EVERY rotation and its target must "
                      "contain every insert in chain order; products carrying another next-level site are outside the hypothesis; a "
                      "two-level CIDAR composition (entries -> cassette -> device)",
                 bound="8 triples x chains <= 3 x 3 (6) target lengths", samples=samples,
